@@ -141,6 +141,8 @@ func main() {
 		cmdReplay(os.Args[2:])
 	case "selftest":
 		cmdSelftest(os.Args[2:])
+	case "reexec":
+		cmdReexec(os.Args[2:])
 	default:
 		fmt.Fprintln(os.Stderr, "unknown command", os.Args[1])
 		os.Exit(2)
